@@ -176,6 +176,12 @@ def run(ctx):
                     elif kind == "required":
                         ok = is_call(t, c["via"]) and bool(find_calls(t, "Option::ok_or", "Option::ok_or_else")) and has_try(t)
                         mf = find_calls(t, "Error::missing_field")
+                        if not mf:
+                            # ok_or_else(|| missing_field(key)): the error is built in the closure
+                            for cl in [s_ for s_ in subterms(t) if s_[0] == "agg" and s_[1] == "closure"]:
+                                rp_ = ret_paths(ctx.paths(cl[2]) or [])
+                                if rp_ and all(is_call(cp.end[1], "Error::missing_field") for cp in rp_):
+                                    mf = [rp_[0].end[1]]
                         ok = ok and bool(mf) and const_str(call_args(mf[0])[0]) == key
                         why = "required %s is not %s(map.get(key).ok_or(missing_field(key))?)" % (f, c["via"])
                     elif kind == "optional-result":
